@@ -21,6 +21,8 @@ import (
 	"google.golang.org/grpc/credentials/insecure"
 	"google.golang.org/grpc/test/bufconn"
 
+	coreclient "github.com/projecteru2/core/client"
+
 	"github.com/projecteru2/core/auth"
 	pb "github.com/projecteru2/core/rpc/gen"
 	"github.com/projecteru2/core/types"
@@ -50,6 +52,8 @@ type c35Case struct {
 	ClientPass string `json:"client_password"`
 	NoCreds    bool   `json:"client_without_credentials,omitempty"`
 	Call       string `json:"call"` // unary | stream
+	// ViaClientPkg: the client is the one client.NewClient builds from the configuration (TCP loopback)
+	ViaClientPkg bool `json:"via_client_package,omitempty"`
 	Served     bool   `json:"served"`
 	Err        string `json:"error,omitempty"`
 }
@@ -94,6 +98,7 @@ func TestC35(t *testing.T) {
 		return "wrong-password"
 	}
 
+	var tcpAddr string
 	runServer := func(su, sp string, f func(dial func(opts ...grpc.DialOption) *grpc.ClientConn, stub *authStub)) {
 		lis := bufconn.Listen(1 << 20)
 		a := auth.NewAuth(types.AuthConfig{Username: su, Password: sp})
@@ -102,6 +107,11 @@ func TestC35(t *testing.T) {
 		pb.RegisterCoreRPCServer(srv, stub)
 		go func() { _ = srv.Serve(lis) }()
 		defer srv.Stop()
+		// the same server on TCP loopback, for clients built by core's own client package
+		if tl, err := net.Listen("tcp", "127.0.0.1:0"); err == nil {
+			tcpAddr = tl.Addr().String()
+			go func() { _ = srv.Serve(tl) }()
+		}
 		dial := func(opts ...grpc.DialOption) *grpc.ClientConn {
 			opts = append(opts, grpc.WithContextDialer(func(context.Context, string) (net.Conn, error) { return lis.Dial() }),
 				grpc.WithTransportCredentials(insecure.NewCredentials()))
@@ -167,6 +177,16 @@ func TestC35(t *testing.T) {
 			t.Fatal(err)
 		}
 		runServer(c.ServerUser, c.ServerPass, func(dial func(opts ...grpc.DialOption) *grpc.ClientConn, stub *authStub) {
+			if c.ViaClientPkg {
+				pc, err := coreclient.NewClient(context.Background(), tcpAddr, types.AuthConfig{Username: c.ClientUser, Password: c.ClientPass})
+				if err != nil {
+					t.Fatal(err)
+				}
+				defer pc.GetConn().Close()
+				call(pc.GetConn(), stub, &c)
+				judge(&c)
+				return
+			}
 			opts := []grpc.DialOption{}
 			if !c.NoCreds {
 				opts = append(opts, grpc.WithPerRPCCredentials(auth.NewCredential(types.AuthConfig{Username: c.ClientUser, Password: c.ClientPass})))
@@ -206,6 +226,22 @@ func TestC35(t *testing.T) {
 					judge(cs)
 				}
 				conn.Close()
+			}
+			// "a client configured with the same credentials as the server is always accepted": the client core's own
+			// client package builds from that configuration (client.NewClient: its dial options and credentials)
+			for _, c := range []cfg{{s.u, s.p}, {s.u, s.p + "x"}} {
+				pc, err := coreclient.NewClient(context.Background(), tcpAddr, types.AuthConfig{Username: c.u, Password: c.p})
+				if err != nil {
+					rec.Count("client_package_dial_errors", 1)
+					continue
+				}
+				for _, kind := range []string{"unary", "stream"} {
+					cs := &c35Case{ServerUser: s.u, ServerPass: s.p, ClientUser: c.u, ClientPass: c.p, Call: kind, ViaClientPkg: true}
+					call(pc.GetConn(), stub, cs)
+					judge(cs)
+					rec.Count("calls_through_the_client_package", 1)
+				}
+				pc.GetConn().Close()
 			}
 			conn := dial()
 			for _, kind := range []string{"unary", "stream"} {
